@@ -9,7 +9,7 @@ N == Len(Traces)
 ASSUME \A t \in 1..N : TLCSet(t, 0)
 TW == {"T", "T!", "[T]", "[T]!", "[T!]", "[T!]!", "[[T!]]"}
 TK == {"int", "enum", "ser", "native", "raw", "input"}
-TP == {"var", "field", "nested", "recursive", "sub_var", "sub_field", "result", "result_nested", "result_fragment"}
+TP == {"var", "field", "nested", "recursive", "sub_var", "sub_field", "result", "result_nested", "result_fragment", "result_union"}
 TS == {"omitted", "none", "val", "val_nullitem", "empty", "val_falsy", "val_nullfirst"}
 AsBuiltDev == {"toplevel_serialize_whole"}
 
